@@ -207,7 +207,19 @@ pub fn gen_rows(r: &mut Rng, o: &GenOpts) -> Vec<GenRow> {
             rows.push(GenRow { trade_jd: day, ..mk("RoC", None, Some(per), None, None, affs[ai]) });
         } else if roll < 88 + o.global_split_pct.max(6) {
             let forms = ["2-for-1", "3-for-1", "3-for-2", "1-for-2"];
-            let f = *r.pick(&forms);
+            let mut f = *r.pick(&forms);
+            if f == "1-for-2" {
+                // a reverse split must leave whole shares; otherwise use a forward split
+                let whole = |b: &Decimal| (*b / Decimal::new(2, 0)).fract().is_zero();
+                let ok = if global_style[si] {
+                    (0..affs.len()).all(|a| bal.get(&(si, a)).map(whole).unwrap_or(true))
+                } else {
+                    bal.get(&(si, ai)).map(whole).unwrap_or(true)
+                };
+                if !ok {
+                    f = "2-for-1";
+                }
+            }
             let (post, pre) = match f {
                 "2-for-1" => (2, 1),
                 "3-for-1" => (3, 1),
